@@ -9,8 +9,8 @@ variable {σ : Type}
 /-! ## Rule -/
 
 /-- the text a rule yields is exactly `w` cells wide: the last statement is `set_cell_size(…, width)` -/
-theorem ruleText_cellLen (cw : Char → Nat) (hsp : cw ' ' = 1) (h2 : ∀ c, cw c ≤ 2) (env : Env) (o : RuleOpts) (w : Int)
-    (hw : 0 ≤ w) : cellLen cw (ruleText cw env o w).1 = w.toNat := by
+theorem ruleText_cellLen (cw : Char → Nat) (hsp : cw ' ' = 1) (h2 : ∀ c, cw c ≤ 2) (env : Env) (v : Variant) (o : RuleOpts) (w : Int)
+    (hw : 0 ≤ w) : cellLen cw (ruleText cw env v o w).1 = w.toNat := by
   unfold ruleText
   simp only
   split
@@ -25,6 +25,42 @@ theorem rstripEnd_id (plain : List Char) (w : Int) (h : (plain.length : Int) ≤
     · omega
     · simp [h1, h]
   · simp [h1]
+
+theorem setCellSizeI_id (cw : Char → Nat) (t : List Char) (n : Int) (h : (cellLen cw t : Int) = n) : setCellSizeI cw t n = t := by
+  unfold setCellSizeI setCellSize
+  have h0 : ¬ n < 0 := by omega
+  have h1 : (cellLen cw t == n.toNat) = true := by simp; omega
+  simp [h0, h1]
+
+/-- Repaired `Rule(align="right")`: when the title fits (`cells(title) + 2 ≤ w`) the rule text is a side of
+exactly `w - cells(title) - 1` cells, one blank, and the whole title — for every `characters`. -/
+theorem ruleText_right_repaired (cw : Char → Nat) (hsp : cw ' ' = 1) (h2 : ∀ c, cw c ≤ 2) (env : Env) (z : Bool) (o : RuleOpts) (w : Int)
+    (ha : o.align = .right) (hne : o.title ≠ [])
+    (hfit : (cellLen cw (o.title.map (fun c => if c == '\n' then ' ' else c)) : Int) + 2 ≤ w) :
+    ∃ side : List Char,
+      (ruleText cw env { zeroWidthChild := z, ruleRightRepeat := false } o w).1
+        = side ++ [' '] ++ o.title.map (fun c => if c == '\n' then ' ' else c) ∧
+      (cellLen cw side : Int) = w - cellLen cw (o.title.map (fun c => if c == '\n' then ' ' else c)) - 1 := by
+  unfold ruleText
+  have he : o.title.isEmpty = false := by cases h : o.title <;> simp_all
+  simp only [he, Bool.false_eq_true, if_false, ha]
+  generalize o.title.map (fun c => if c == '\n' then ' ' else c) = title at hfit ⊢
+  have htr : textTruncate cw title (w - 2) .ellipsis = title := by
+    unfold textTruncate
+    simp only [show (Overflow.ellipsis == Overflow.ignore) = false from rfl, Bool.false_eq_true, if_false]
+    rw [if_neg (by omega)]
+  simp only [htr]
+  generalize hside : setCellSizeI cw (repStr ((w - (cellLen cw title : Int) - 1) /
+      (cellLen cw (if (env.asciiOnly && !o.characters.all fun c => decide (c.toNat < 128)) = true then ['-'] else o.characters) : Int) + 1)
+      (if (env.asciiOnly && !o.characters.all fun c => decide (c.toNat < 128)) = true then ['-'] else o.characters))
+      (w - (cellLen cw title : Int) - 1) = side
+  have hsl : (cellLen cw side : Int) = w - cellLen cw title - 1 := by
+    rw [← hside, setCellSizeI_cellLen cw hsp h2 _ _ (by omega)]
+    omega
+  refine ⟨side, ?_, hsl⟩
+  apply setCellSizeI_id
+  simp only [cellLen_append, cellLen_cons, cellLen_nil, hsp]
+  omega
 
 /-! ## Bar -/
 
@@ -342,5 +378,59 @@ theorem progress_bar_cells (cw : Char → Nat) (hsp : cw ' ' = 1) (hd : cw '-' =
       rw [lineLength_append, lineLength_append, lineLength_append, lineLength_opt_rep cw _ _ hbar,
         lineLength_opt_rep cw _ _ hhr, lineLength_opt_single cw _ _ hhl, lineLength_opt_rep cw _ _ hbar]
       cases huse : (halves % 2 == 0 && halves / 2 != 0) <;> simp only [Bool.false_eq_true, if_false, if_true] <;> omega
+
+/-- no segment of a progress bar contains a line feed -/
+theorem progressConsole_no_nl (env : Env) (o : ProgressOpts) (w : Int) :
+    ∀ s ∈ progressConsole (σ := σ) env o w, '\n' ∉ s.text := by
+  have hrep : ∀ (n : Int) (c : Char), c ≠ '\n' → '\n' ∉ rep n c := by
+    intro n c hc hm
+    simp only [rep, List.mem_replicate] at hm
+    exact hc hm.2.symm
+  have e1 : ∀ (b : Prop) [Decidable b] (n : Int) (c : Char), c ≠ '\n' →
+      ∀ x ∈ (if b then [(seg (rep n c) : Segment σ)] else []), '\n' ∉ x.text := by
+    intro b _ n c hc x hx
+    split at hx
+    · simp only [List.mem_singleton] at hx; subst hx; exact hrep n c hc
+    · simp at hx
+  have e2 : ∀ (b : Prop) [Decidable b] (c : Char), c ≠ '\n' →
+      ∀ x ∈ (if b then [(seg [c] : Segment σ)] else []), '\n' ∉ x.text := by
+    intro b _ c hc x hx
+    split at hx
+    · simp only [List.mem_singleton] at hx; subst hx
+      simp only [seg, List.mem_singleton]; exact fun h => hc h.symm
+    · simp at hx
+  intro s hs
+  unfold progressConsole at hs
+  simp only at hs
+  generalize barWidth o.width w = width at hs
+  generalize (env.legacyWindows || env.asciiOnly) = ascii at hs
+  have hb : (if ascii = true then '-' else '━') ≠ '\n' := by split <;> decide
+  have hr : (if ascii = true then ' ' else '╸') ≠ '\n' := by split <;> decide
+  have hl : (if ascii = true then ' ' else '╺') ≠ '\n' := by split <;> decide
+  by_cases hp : o.pulse = true
+  · simp only [hp, if_true, List.mem_map] at hs
+    obtain ⟨ch, hch, rfl⟩ := hs
+    have hm := mem_flatten_replicate _ _ ch (List.mem_of_mem_drop (List.mem_of_mem_take hch))
+    rcases pulseChars_mem env _ ch hm with h | h | h <;> simp [seg, h]
+  · simp only [hp, Bool.false_eq_true, if_false] at hs
+    generalize (if o.total.isZero = true then width * 2 else
+      truncMulDiv (width * 2) (if o.total.lt (if o.completed.lt ⟨0, 1⟩ = true then ⟨0, 1⟩ else o.completed) = true then o.total
+        else if o.completed.lt ⟨0, 1⟩ = true then ⟨0, 1⟩ else o.completed) o.total) = halves at hs
+    have hF : ∀ x ∈ ((if (halves / 2 != 0) = true then [(seg (rep (halves / 2) (if ascii = true then '-' else '━')) : Segment σ)] else [])
+        ++ (if (halves % 2 != 0) = true then [seg (rep (halves % 2) (if ascii = true then ' ' else '╸'))] else [])),
+        '\n' ∉ x.text := by
+      intro x hx
+      rcases List.mem_append.mp hx with h | h
+      · exact e1 _ _ _ hb x h
+      · exact e1 _ _ _ hr x h
+    rcases ite_mem _ _ s hs with h | h
+    · rcases ite_mem _ _ s h with h | h
+      · rcases List.mem_append.mp h with h | h
+        · rcases List.mem_append.mp h with h | h
+          · exact hF s h
+          · exact e2 _ _ hl s h
+        · exact e1 _ _ _ hb s h
+      · exact hF s h
+    · exact hF s h
 
 end RichModel.Frames
